@@ -584,4 +584,21 @@ def check_C11(chk):
         if len([r for r in vrecs if r.get("kind") == "vanish"]) < len(vlines):
             chk.failing_input("the receiver-vanishes scenarios did not complete (rc=%s): %s" % (vrc, verr[-300:]), {"build": fl}, key="res:%s:vanish-incomplete" % fl)
         chk.coverage.setdefault("vanish_close_scan", {})[fl] = sum(1 for r in vtrace if r["call"] == "close")
+    # a sender process that dies at every point of a multi-fragment send carrying channels and regions: whatever the receiver had already
+    # been handed for the interrupted message must be released (crash driver: descriptor and mapping counts of the receiving process)
+    from . import props_conc as PCN
+    shapes = PCN.crash_shapes(4096)
+    ccases, cid = [], itertools.count(1)
+    for npk in (2, 3):
+        for k in range(0, 1 + (3 + npk) + 2 + 2):
+            ccases.append({"id": next(cid), "len": shapes[npk], "k": k, "survivor": k % 2, "natt": 2, "nreg": 2, "observe": ["recv", "select", "try"][k % 3], "npk": npk, "S": 4096})
+    for it in PCN.run_crash(bins["default"], 4096, ccases):
+        why = PCN.crash_oracle(it)
+        if why:
+            c0 = it["case"]
+            chk.failing_input("receiver of a message whose sender process was killed before its call %d of a %d-packet send carrying 2 channels and 2 regions: %s" % (c0["k"], c0["npk"], why),
+                              {"input": c0, "child_progress": it["child"], "observed": it["rec"]}, key="c11crash:npk=%d k=%d" % (c0["npk"], c0["k"]))
+        for r in it.get("bad_cloexec", [])[:1]:
+            chk.failing_input("descriptor created without close-on-exec during a multi-fragment send: %s" % r, {"call": r}, key="c11crash:cloexec:%s" % r["call"])
+    chk.coverage["interrupted_transfer_scenarios"] = len(ccases)
     chk.coverage["resource_repetitions"] = n
